@@ -1,12 +1,14 @@
 import Driver.Util
 import Driver.Quote
 import Driver.Auth
+import Driver.Rights
 open Lean
 
 def dispatch (j : Json) : Json :=
   match Driver.getS j "m" with
   | "quote" => Driver.handleQuote j
   | "authcache" => Driver.handleAuth j
+  | "rights" => Driver.handleRights j
   | "ping" => Driver.obj [("r", Json.str "pong")]
   | _ => Driver.obj [("error", Json.str "bad-model")]
 
